@@ -1027,13 +1027,19 @@ class SimWorld(object):
         steps0 = self.clock.steps
         try:
             with _Seams(self.fs), contextlib.redirect_stdout(out), contextlib.redirect_stderr(err):
+                # the script is run the way `python assembler.py ...` runs it: its module body is executed as __main__, so
+                # whatever its last lines do with main()'s result (ignore it, or sys.exit(main())) is what decides the status
+                import types
+                script = types.ModuleType("__main__")
+                script.__file__ = mod.__file__
+                code = _code_for(mod.__file__, self.optimize)
                 try:
                     if budget is not None:
                         with cpu_limit(CPU_LIMIT_S + budget / 1.0e6), self.clock.running(budget):
-                            mod.main(mod.parse_arguments())
+                            exec(code, script.__dict__)
                     else:
                         with cpu_limit(UNBUDGETED_CPU_LIMIT_S):
-                            mod.main(mod.parse_arguments())
+                            exec(code, script.__dict__)
                     res.status = 0
                 except SystemExit as e:
                     code = e.code
